@@ -24,6 +24,7 @@ PROOF_FAIL = [
     (r'^postcondition not satisfied', 'post'),
     (r'^precondition not satisfied', 'pre-of-callee'),
     (r'^precondition not met', 'pre-of-callee'),
+    (r'^unable to prove post-condition of closure', 'post'),
     (r'^invariant not satisfied at end of loop body', 'invariant-preserved'),
     (r'^invariant not satisfied before loop', 'invariant-init'),
     (r'^assertion failed', 'assert'),
